@@ -381,6 +381,8 @@ class Problem:
 
     # the prior: identity-like affine map so that the likelihood families stay on the unit cube
     def prior_fn(self, u):
+        if self.cfg.get('prior_identity'):
+            return u                      # the very array the sampler handed over
         if self.cfg.get('prior_inplace'):
             # a prior function that modifies its argument in place (doubling is exact; the likelihood halves again)
             u *= 2.0
@@ -392,6 +394,8 @@ class Problem:
         x = self._unpack(arg)
         ll = self.f(x)
         b = blob_of(self.cfg['blob'], x, ll)
+        if self.cfg.get('lik_inplace') and isinstance(arg, np.ndarray):
+            arg[...] = 0.25                # a likelihood that scribbles over its argument
         return ll if b is None else (ll,) + b
 
     def like_vector(self, args):
@@ -401,6 +405,8 @@ class Problem:
         else:
             rows = list(args)
         res = [self.like_scalar(r) for r in rows]
+        if self.cfg.get('lik_inplace') and isinstance(args, np.ndarray):
+            args[...] = 0.25
         if self.cfg['blob'] == 'none':
             return np.array(res)
         cols = list(zip(*res))
